@@ -36,3 +36,15 @@ e2prop("C13", "PVSS and DLEQ", "c13",
        ["pvss.EncShares", "pvss.computeCommitments", "pvss.computeGlobalChallenge", "pvss.VerifyEncShare", "pvss.VerifyEncShareBatch", "pvss.DecShare", "pvss.DecShareBatch", "pvss.VerifyDecShare", "pvss.VerifyDecShareBatch", "pvss.RecoverSecret", "dleq.NewDLEQProof", "dleq.NewDLEQProofBatch", "dleq.Proof.Verify", "share.RecoverCommit"],
        ["quick: 2<=n<=5, 1<=t<=n, all subsets of decrypted shares of size >= t-1 with identity/reverse/seeded orders; mutations at (n,t) in {(3,2),(4,3)} for every trustee j and 12 encrypted-share / 9 decrypted-share mutation kinds; DLEQ: 9 mutations, batches of 1..3", "thorough: n<=8, mutations also at (5,3),(6,4),(4,4), second solver"],
        ["collision resistance of the hash (random-oracle idealisation)", "n > 8", "the share index S.I is not covered by the proofs (sH is supplied by the caller): outcome recorded, not asserted"])
+
+e2prop("C08", "Schnorr / ring signatures", "c08",
+       "the real sign/schnorr and sign/anon (ring signatures, linkable and not) run on symbolic keys, nonces and oracle outputs: honest signatures verify (validity of the verification equation), every altered message / key / ring member / signature block / scope / length is rejected, linkage tags coincide exactly for the same key and scope (tags of different keys never coincide).",
+       ["schnorr.Sign", "schnorr.Verify", "schnorr.VerifyWithChecks", "schnorr.hash", "schnorr.Scheme.NewKeyPair/Sign/Verify", "anon.Sign", "anon.Verify", "anon.signH1pre", "anon.signH1"],
+       ["quick: 5 message lengths (0..200 bytes, concrete bytes: the hash is an oracle); ring sizes 1..4, every signer position, with and without link scope; every 32-byte block of the signature altered, every ring member replaced", "thorough: ring sizes up to 8, second solver"],
+       ["byte-identity of EdDSA with crypto/ed25519 for every message (needs SHA-512 symbolically): exercised only as concrete translator validation", "message lengths beyond the listed ones (hash = oracle, length-independent)", "canonicity / small-order predicates of Ed25519 are the E1 part"])
+
+e2prop("C09", "BLS / threshold BLS / BDN / CoSi", "c09",
+       "the real sign/bls, sign/tbls, sign/bdn and sign/cosi run over a symbolic pairing suite (e(aG1,bG2)=ab*GT) on both group assignments: honest signatures verify; the recovered threshold signature equals secret*H(m) for every t-subset and order, also alongside invalid, foreign, wrong-index, duplicate, short and empty partials; fewer than t valid partials are refused; a BDN aggregate verifies under the aggregate key of exactly its mask (all other masks rejected) for every way of constructing the mask; a CoSi signature verifies exactly for its commitment, response, mask and policy.",
+       ["bls.NewSchemeOnG1/G2", "bls.scheme.NewKeyPair/Sign/Verify", "tbls.scheme.Sign/IndexOf/VerifyPartial/VerifyRecovered/Recover", "tbls.SigShare.Index/Value", "bdn.NewMask", "bdn.Mask.SetBit/SetMask/Merge/Clone/GetBit/CountEnabled/IndexOfNthEnabled/NthEnabledAtIndex/Mask", "bdn.hashPointToR", "bdn.Scheme.AggregateSignatures/AggregatePublicKeys/Sign/Verify", "cosi.Commit/AggregateCommitments/Challenge/Response/AggregateResponses/Sign/Verify", "cosi.NewMask", "cosi.Mask.SetMask/SetBit/CountEnabled/IndexEnabled", "cosi.ThresholdPolicy/CompletePolicy", "share.RecoverCommit", "PubPoly.Eval"],
+       ["quick: tbls 2<=t<=n<=5, all t-subsets in 3 orders plus 10 fault patterns per (t,n); BDN n<=4 every non-empty mask x 6 constructions (+ one 9-key mask), every other mask tried as verifier; CoSi n<=4 every non-empty mask, thresholds 0..n (+ one 9-key mask)", "thorough: tbls n<=8, BDN/CoSi n<=6, second solver"],
+       ["the real pairing (C06) and hash-to-curve: Hash(m) is a random-oracle point", "n beyond the bounds", "mask bit kernels for symbolic indices are the E1 part"])
